@@ -77,6 +77,19 @@ pub enum Strategy {
     /// commit to the function honestly, then to constant layers (all 0 / all 1) instead of the folded ones, and to the
     /// matching constant remainder
     ConstantTail(u8),
+    /// an honest prover that works in 2^`0` partitions (the layout a distributed prover produces): every layer tree
+    /// holds the row of position p at leaf (p mod P) * (rows / P) + p div P, the proof declares P partitions;
+    /// everything else is honest
+    Partitioned(u8),
+}
+
+/// leaf index of the row at `position` in a layer tree of `rows` leaves committed in `parts` partitions
+pub fn leaf_index(position: usize, rows: usize, parts: usize) -> usize {
+    if parts <= 1 {
+        position
+    } else {
+        (position % parts) * (rows / parts) + position / parts
+    }
 }
 
 /// domain points of layer `depth`: offset^(k^depth) * (w^(k^depth))^i
@@ -144,13 +157,17 @@ pub struct Committed<E: FieldElement, H: ElementHasher<BaseField = E::BaseField>
     pub last_evals: Vec<El>,
 }
 
-fn commit_layer<E: Elt, H: ElementHasher<BaseField = E::BaseField>>(evals: &[El], k: usize) -> (MerkleTree<H>, Vec<Vec<E>>)
+fn commit_layer<E: Elt, H: ElementHasher<BaseField = E::BaseField>>(evals: &[El], k: usize, parts: usize) -> (MerkleTree<H>, Vec<Vec<E>>)
 where
     E::BaseField: Fld,
 {
     let rows = evals.len() / k;
+    // rows stay indexed by position; only the leaf order of the tree follows the partition layout
     let rr: Vec<Vec<E>> = (0..rows).map(|j| (0..k).map(|m| E::from_ref(&evals[j + m * rows])).collect()).collect();
-    let leaves: Vec<H::Digest> = rr.iter().map(|r| H::hash_elements(r)).collect();
+    let mut leaves: Vec<H::Digest> = vec![H::Digest::default(); rows];
+    for (j, r) in rr.iter().enumerate() {
+        leaves[leaf_index(j, rows, parts)] = H::hash_elements(r);
+    }
     (MerkleTree::<H>::new(leaves).expect("layer tree"), rr)
 }
 
@@ -172,7 +189,8 @@ where
                 cur[i] = ctx.add(&cur[i], &Ctx::ONE);
             }
         }
-        let (tree, rows) = commit_layer::<E, H>(&cur, cfg.k);
+        let parts = if let Strategy::Partitioned(e) = strategy { 1usize << *e } else { 1 };
+        let (tree, rows) = commit_layer::<E, H>(&cur, cfg.k, parts);
         coin.reseed(*tree.root());
         commitments.push(*tree.root());
         let alpha: E = coin.draw().expect("alpha");
@@ -254,7 +272,9 @@ where
         if dedup.len() != opened.len() {
             return None;
         }
-        let proof = lay.tree.prove_batch(&opened).ok()?;
+        let parts = if let Strategy::Partitioned(e) = c.strategy { 1usize << e } else { 1 };
+        let opened_leaves: Vec<usize> = opened.iter().map(|p| leaf_index(*p, lay.rows.len(), parts)).collect();
+        let proof = lay.tree.prove_batch(&opened_leaves).ok()?;
         let mut rows: Vec<Vec<E>> = opened.iter().map(|p| lay.rows[*p].clone()).collect();
         if c.strategy == Strategy::TamperOpened(depth) {
             rows[0][0] = rows[0][0] + E::ONE;
@@ -321,7 +341,10 @@ where
         },
         _ => c.committed_remainder.clone(),
     };
-    let partitions_exp = if let Strategy::ForgedFirstLayer(e) = c.strategy { e } else { 0 };
+    let partitions_exp = match c.strategy {
+        Strategy::ForgedFirstLayer(e) | Strategy::Partitioned(e) => e,
+        _ => 0,
+    };
     Some(Said { layers: said, remainder, partitions_exp })
 }
 
